@@ -281,6 +281,8 @@ class SimContext(_CtxMixin, A.AsyncContext):
         e = self._log_pause()
         if e is not None:
             raise e
+        # (what pause() returns is nobody's business: some user contexts return self or True)
+        return self.B.spec.get("pause_returns")
 
     def __repr__(self):
         return "SimContext(%s)" % self.cid
@@ -777,6 +779,17 @@ class RealBackend(object):
     def result(self, val):
         A.result(val)
 
+    def stack_probe(self, inst):
+        """format_asynq_stack() from inside the running task: outermost entry first, this task last."""
+        st = _adebug.format_asynq_stack()
+        n = None if st is None else len(st)
+        depth = 0
+        c = inst
+        while c is not None:
+            depth += 1
+            c = getattr(c, "parent", None)
+        self.ev("stack", inst.token, n)
+
     def set_option(self, inst, name, value):
         """User code flips a debug option in the middle of a task step."""
         if name in DEFAULT_OPTIONS:
@@ -921,6 +934,8 @@ class RealBackend(object):
         if inst.token not in self.insts:
             self.insts[inst.token] = inst
         self._check_active(inst, "start")
+        if self.spec.get("stack_probe"):
+            self.stack_probe(inst)
         if "C03" in self.mon and not self._is_awaited(inst):
             self.viol("C03", "started-unawaited", "task %s started although nothing yielded or waited on it" % inst.token)
         self._read(inst)
